@@ -366,6 +366,8 @@ class Executor:
                 except OSError:
                     raise
                 except Exception as err:
+                    if self.files is not None and self.files.fired:
+                        raise     # an injected fault in disguise aborts the call
                     st['exc'] = err
             return [st['exc'] if st['exc'] is not None else st['mol'] for st in mols]
         return run
